@@ -1,6 +1,7 @@
 (* C01 — Python codec round-trip.  Statements only. *)
 From Coq Require Import String ZArith List Bool.
 From FcpV Require Import Base.Bits Schema.Types Wire.Wire Wire.WireProofs Py.PySerde Py.PySerdeProofs.
+From FcpV Require Import Py.BufferLib gen.PyBuffer Py.BufferProofs.
 Import ListNotations.
 Open Scope Z_scope.
 
@@ -85,3 +86,18 @@ Example c01_nonvacuous :
   | _, _ => False
   end.
 Proof. vm_compute. repeat split; reflexivity. Qed.
+
+(* ---- the bit buffer of serde.py itself (gen/PyBuffer.v, translated from class _Buffer on every run) ----
+   any words of any widths (negative words in two's complement) written with push_word, taken out with get_buffer(), loaded
+   into a fresh buffer with push_bytes and read back with read_word come back unchanged modulo 2^width *)
+Theorem buffer_words_roundtrip :
+  forall ws, exists s1 s2 data s3 s4,
+    push_all py_init ws = POk s1 /\ py_get_buffer s1 = POk (s2, data) /\
+    py_push_bytes py_init data = POk (s3, tt) /\
+    read_all (set_bitaddr s3 0) (map snd ws) = POk (s4, map (fun wm => fst wm mod 2 ^ Z.of_nat (snd wm)) ws).
+Proof. exact buffer_roundtrip. Qed.
+Print Assumptions buffer_words_roundtrip.
+
+Example c01_buffer_nonvacuous :
+  exists s, push_all py_init [(5, 3%nat); (-1, 7%nat); (300, 9%nat)] = POk s /\ py_get_buffer s = POk (s, [253; 179; 4]).
+Proof. eexists. split; vm_compute; reflexivity. Qed.
